@@ -35,6 +35,7 @@ def kit():
     import linear_operator
     from linear_operator.utils.warnings import NumericalWarning
 
+    torch.set_num_threads(1)  # small matrices; one OS process per unit already
     K = SimpleNamespace(torch=torch, zoo=zoo, linear_operator=linear_operator, NumericalWarning=NumericalWarning)
     f64 = torch.float64
     K.DT = {"f64": torch.float64, "f32": torch.float32}
@@ -270,7 +271,7 @@ def rtc_cg_budget(dtname, kinds, tier):
         # rotate the other dimensions of the family so that every value meets every size
         variants = []
         i = sizes.index(n) + int(math.log10(cond)) + len(kind)
-        for v in range(2 if tier == "quick" else 4):
+        for v in range(3 if tier == "quick" else 5):
             batch = K.BATCHES[(i + v) % 4]
             pk = ["none", "jacobi", "lowrank", "exact", "randspd"][(i + 2 * v) % 5]
             ncols = [1, 3][(i + v) % 2]
@@ -296,6 +297,11 @@ def rtc_cg_budget(dtname, kinds, tier):
             rho_b = ((ev[..., -1] / ev[..., 0]).sqrt() - 1) / ((ev[..., -1] / ev[..., 0]).sqrt() + 1)  # per batch member
             lab = _lab(dt=dtname, kind=kind, cond=f"{cond:g}", n=n, b=batch, cols=ncols, pre=pk, tbs=int(tbs), x0=guess, eps=f"{eps:g}", sua=f"{sua:g}")
             jmax = min(n + 3, 40 if tier == "quick" else 67)
+            # attainable accuracy of the arithmetic (depends on the size of the iterates, hence on the initial guess)
+            x0d = x0.double() if x0 is not None else torch.zeros_like(xs)
+            slack = 50 * em * kapA * (K.anorm(A64, xs) + K.anorm(A64, x0d))
+            lmaxA = torch.linalg.eigvalsh(A64)[..., -1]
+            mach_res = 50 * em * (kapA + lmaxA.unsqueeze(-1) * x0d.norm(dim=-2) / bn)
             prev = e0A
             mm = A.matmul
             pc = (lambda v, P=P: P @ v) if P is not None else None
@@ -307,11 +313,11 @@ def rtc_cg_budget(dtname, kinds, tier):
                         x, _w = K.run_warn(lambda: linear_cg(mm, b, max_iter=j, max_tridiag_iter=0, tolerance=1e-30, eps=eps,
                                                               stop_updating_after=sua, initial_guess=x0, preconditioner=pc))
                 except Exception as e:  # noqa
-                    rec.check(f"budget_run/{kind}", lab + f"|j={j}", False, f"raised {type(e).__name__}: {e}")
+                    rec.check(f"budget_run/{kind}-{dtname}", lab + f"|j={j}", False, f"raised {type(e).__name__}: {e}")
                     ok_run = False
                     break
                 if x.shape != xs.shape or x.dtype != dt:
-                    rec.check(f"budget_run/{kind}", lab + f"|j={j}", False, f"shape/dtype {tuple(x.shape)} {x.dtype} vs {tuple(xs.shape)} {dt}")
+                    rec.check(f"budget_run/{kind}-{dtname}", lab + f"|j={j}", False, f"shape/dtype {tuple(x.shape)} {x.dtype} vs {tuple(xs.shape)} {dt}")
                     ok_run = False
                     break
                 e = x.double() - xs
@@ -323,9 +329,8 @@ def rtc_cg_budget(dtname, kinds, tier):
                 # attainable accuracy of the arithmetic
                 q1 = (r * ((P64 @ r) if P64 is not None else r)).sum(-2)
                 q2 = lminA.unsqueeze(-1) * q1 ** 2 / rn.clamp_min(1e-300) ** 2
-                at_floor = (torch.minimum(q1, q2) < 16 * eps) | (rn < 4 * sua) | (rn < _mach_floor(dt, kapA))
+                at_floor = (torch.minimum(q1, q2) < 16 * eps) | (rn < 4 * sua) | (rn < mach_res)
                 # monotone in the budget
-                slack = 50 * em * kapA * K.anorm(A64, xs)
                 bad = eA > prev * (1 + rt) + slack
                 if bad.any() and ok_mono:
                     ok_mono = False
@@ -339,9 +344,9 @@ def rtc_cg_budget(dtname, kinds, tier):
                     det_bound = f"j={j}: ||e||_A {eA.flatten().tolist()[:4]} > 2rho^j||e0||_A {bound.flatten().tolist()[:4]} (rel.res {rn.flatten().tolist()[:4]})"
                 prev = torch.minimum(prev, eA) if dt == torch.float32 else eA
             if ok_run:
-                rec.check(f"budget_run/{kind}", lab, True)
-                rec.check(f"monotone_Anorm/{kind}", lab, ok_mono, det_mono)
-                rec.check(f"classical_bound/{kind}", lab, ok_bound, det_bound)
+                rec.check(f"budget_run/{kind}-{dtname}", lab, True)
+                rec.check(f"monotone_Anorm/{kind}-{dtname}", lab, ok_mono, det_mono)
+                rec.check(f"classical_bound/{kind}-{dtname}", lab, ok_bound, det_bound)
     return rec.obligations()
 
 
@@ -382,44 +387,47 @@ def rtc_cg_limit(dtname, kinds, tier):
             try:
                 # ---- (1) warning discipline: no NumericalWarning => mean relative residual < tolerance
                 for tol, mi, tbs in ((1e-2, 1000, True), (1e-4, 1000, False), (1.0, 1000, True), (1e-3, max(1, n // 2), True), (1e-6, 12, False)):
-                    lab = lab0 + _lab(tol=f"{tol:g}", mi=mi, tbs=int(tbs))
                     lab = lab0 + "|" + _lab(tol=f"{tol:g}", mi=mi, tbs=int(tbs))
                     cnt = K.Counting(A.matmul)
                     with settings.terminate_cg_by_size(tbs):
-                        done, out = rec.guard(f"run/{pk}", lab, lambda: K.run_warn(lambda: linear_cg(cnt, b, tolerance=tol, max_iter=mi, max_tridiag_iter=0, preconditioner=pc)))
+                        done, out = rec.guard(f"run/{pk}-{dtname}", lab, lambda: K.run_warn(lambda: linear_cg(cnt, b, tolerance=tol, max_iter=mi, max_tridiag_iter=0, preconditioner=pc)))
                     if not done:
                         continue
                     x, w = out
                     ok = x.shape == b.shape and x.dtype == dt
-                    rec.check(f"shape_dtype/{pk}", lab, ok, f"{tuple(x.shape)} {x.dtype} vs {tuple(b.shape)} {dt}")
+                    rec.check(f"shape_dtype/{pk}-{dtname}", lab, ok, f"{tuple(x.shape)} {x.dtype} vs {tuple(b.shape)} {dt}")
                     if not ok:
                         continue
                     rn = (b.double() - A64 @ x.double()).norm(dim=-2) / bn
                     if not w:
-                        rec.check(f"no_warning_residual/{pk}", lab, bool(rn.mean() <= tol * (1 + 1e-6) + 50 * em * kapA),
+                        rec.check(f"no_warning_residual/{pk}-{dtname}", lab, bool(rn.mean() <= tol * (1 + 1e-6) + 50 * em * kapA),
                                   f"no NumericalWarning but mean relative residual {rn.mean().item():.3e} > tolerance {tol:g}")
                     else:
-                        rec.check(f"no_warning_residual/{pk}", lab, True, nontrivial=False)
+                        rec.check(f"no_warning_residual/{pk}-{dtname}", lab, True, nontrivial=False)
                     budget = min(mi, n) if tbs else mi
-                    rec.check(f"iteration_budget/{pk}", lab, cnt.calls <= budget + 1, f"{cnt.calls} matmul calls for an iteration budget of {budget}")
+                    rec.check(f"iteration_budget/{pk}-{dtname}", lab, cnt.calls <= budget + 1, f"{cnt.calls} matmul calls for an iteration budget of {budget}")
                 # ---- (2) convergence: within the iteration count that the classical bound guarantees CG must
                 # have reached the tolerance (tolerance well above the floor) -> no warning, residual < tol
                 tol = 1e-2 if pk in ("exact", "lowrank", "randspd") else 1e-3
-                if kap * em * 1e3 < tol:
+                # the safe divisions (r^T P r < eps, p^T A p < eps) stall CG below this relative residual (statement: floor)
+                lminP = float(torch.linalg.eigvalsh(P64)[..., 0].min()) if P64 is not None else 1.0
+                lminA = float(torch.linalg.eigvalsh(A64)[..., 0].min())
+                floor_r = 4e-5 / min(math.sqrt(lminP), lminP * math.sqrt(lminA))
+                if kap * em * 1e3 < tol and tol >= 4 * floor_r:
                     rho = (math.sqrt(kap) - 1) / (math.sqrt(kap) + 1)
                     J = 13 if rho <= 0 else max(13, int(math.ceil(math.log(2 * math.sqrt(kapA) / (0.5 * tol)) / -math.log(max(rho, 1e-12)))) + 2)
                     J = 2 * J + n  # generous (finite precision delays convergence), still a finite budget
                     lab = lab0 + "|" + _lab(tol=f"{tol:g}", J=J)
                     with settings.terminate_cg_by_size(False):
-                        done, out = rec.guard(f"converges/{pk}", lab, lambda: K.run_warn(lambda: linear_cg(A.matmul, b, tolerance=tol, max_iter=J, max_tridiag_iter=0, preconditioner=pc)))
+                        done, out = rec.guard(f"converges/{pk}-{dtname}", lab, lambda: K.run_warn(lambda: linear_cg(A.matmul, b, tolerance=tol, max_iter=J, max_tridiag_iter=0, preconditioner=pc)))
                     if done:
                         x, w = out
                         rn = (b.double() - A64 @ x.double()).norm(dim=-2) / bn
-                        rec.check(f"converges/{pk}", lab, (not w) and bool(rn.mean() <= tol * (1 + 1e-6) + 50 * em * kapA),
+                        rec.check(f"converges/{pk}-{dtname}", lab, (not w) and bool(rn.mean() <= tol * (1 + 1e-6) + 50 * em * kapA),
                                   f"warned={bool(w)} mean rel.res {rn.mean().item():.3e} after budget {J} (kappa {kap:.3g})")
                         # the limit does not depend on the preconditioner: error vs the dense solution
                         err = (x.double() - xs).norm(dim=-2) / xs.norm(dim=-2).clamp_min(1e-300)
-                        rec.check(f"limit_is_solution/{pk}", lab, bool((err.mean() <= tol * kapA * 1.01 + 50 * em * kapA)), f"relative error {err.max().item():.3e}")
+                        rec.check(f"limit_is_solution/{pk}-{dtname}", lab, bool((err.mean() <= tol * kapA * 1.01 + 50 * em * kapA)), f"relative error {err.max().item():.3e}")
             finally:
                 torch.set_default_dtype(old_default)
         # ---- (3) special columns / scaling / vector rhs / frozen columns on a moderately conditioned member
@@ -427,6 +435,7 @@ def rtc_cg_limit(dtname, kinds, tier):
             continue
         pk = ["none", "jacobi", "lowrank"][i % 3]
         A, A64, b, P, P64, ev, kap = _cg_problem(K, 9000 + seed, dt, kind, cond, n, batch, 4, pk)
+        kap = float((torch.linalg.eigvalsh(A64)[..., -1] / torch.linalg.eigvalsh(A64)[..., 0]).max())  # of A itself from here on
         pc = (lambda v, P=P: P @ v) if P is not None else None
         lab0 = _lab(dt=dtname, kind=kind, cond=f"{cond:g}", n=n, b=batch, pre=pk)
         kw = dict(tolerance=1e-4 if dt == torch.float64 else 1e-3, max_iter=400, max_tridiag_iter=0, preconditioner=pc)
@@ -434,67 +443,71 @@ def rtc_cg_limit(dtname, kinds, tier):
             # zero column, in the middle
             bz = b.clone()
             bz[..., 1] = 0
-            done, out = rec.guard(f"zero_column/{pk}", lab0, lambda: K.run_warn(lambda: linear_cg(A.matmul, bz, **kw)))
+            done, out = rec.guard(f"zero_column/{pk}-{dtname}", lab0, lambda: K.run_warn(lambda: linear_cg(A.matmul, bz, **kw)))
             if done:
                 x, w = out
-                rec.check(f"zero_column/{pk}", lab0, bool((x[..., 1] == 0).all()), f"zero rhs column gives {x[..., 1].abs().max().item():.3e}")
+                rec.check(f"zero_column/{pk}-{dtname}", lab0, bool((x[..., 1] == 0).all()), f"zero rhs column gives {x[..., 1].abs().max().item():.3e}")
                 xs = torch.linalg.solve(A64, bz.double())
                 rn = (bz.double() - A64 @ x.double()).norm(dim=-2) / bz.double().norm(dim=-2).clamp_min(1e-300)
                 rn[..., 1] = 0
                 if not w:
-                    rec.check(f"zero_column_others/{pk}", lab0, bool(rn.mean() <= kw["tolerance"] * 1.001 + 50 * em * kap * 10), f"mean rel.res {rn.mean().item():.3e}")
+                    rec.check(f"zero_column_others/{pk}-{dtname}", lab0, bool(rn.mean() <= kw["tolerance"] * 1.001 + 50 * em * kap * 10), f"mean rel.res {rn.mean().item():.3e}")
             # all-zero rhs (skips the iteration)
-            done, out = rec.guard(f"zero_rhs/{pk}", lab0, lambda: K.run_warn(lambda: linear_cg(A.matmul, torch.zeros_like(b), **kw)))
+            done, out = rec.guard(f"zero_rhs/{pk}-{dtname}", lab0, lambda: K.run_warn(lambda: linear_cg(A.matmul, torch.zeros_like(b), **kw)))
             if done:
                 x, w = out
-                rec.check(f"zero_rhs/{pk}", lab0, x.shape == b.shape and bool((x == 0).all()) and not w, f"max {x.abs().max().item():.3e} warned={bool(w)}")
+                rec.check(f"zero_rhs/{pk}-{dtname}", lab0, x.shape == b.shape and bool((x == 0).all()) and not w, f"max {x.abs().max().item():.3e} warned={bool(w)}")
             # scaling law: tiny / huge / negative column scalings give the scaled answer
-            sc = torch.tensor([1.0, -3.0, 1e-6, 1e8] if dt == torch.float64 else [1.0, -3.0, 1e-4, 1e6], dtype=dt)
-            done, out = rec.guard(f"scaling/{pk}", lab0, lambda: (linear_cg(A.matmul, b, **kw), linear_cg(A.matmul, b * sc, **kw)))
+            # (power-of-two scalings are exact in floating point, so the normalised systems coincide bit for bit:
+            # tight; a generic scaling only agrees to the accuracy of the solve)
+            sc = torch.tensor([1.0, -4.0, 2.0 ** -20, 2.0 ** 27] if dt == torch.float64 else [1.0, -4.0, 2.0 ** -13, 2.0 ** 20], dtype=dt)
+            done, out = rec.guard(f"scaling/{pk}-{dtname}", lab0, lambda: (linear_cg(A.matmul, b, **kw), linear_cg(A.matmul, b * sc, **kw), linear_cg(A.matmul, b * -3.0, **kw)))
             if done:
-                x1, x2 = out
+                x1, x2, x3 = out
                 d = (x2.double() / sc.double() - x1.double()).norm(dim=-2) / x1.double().norm(dim=-2).clamp_min(1e-300)
-                rec.check(f"scaling/{pk}", lab0, bool((d <= 1e3 * em).all()), f"x(b*s)/s differs from x(b) by {d.flatten().tolist()[:8]} (relative)")
+                rec.check(f"scaling/{pk}-{dtname}", lab0, bool((d <= 8 * em).all()), f"x(b*s)/s differs from x(b) by {d.flatten().tolist()[:8]} (relative)")
+                d = (x3.double() / -3.0 - x1.double()).norm(dim=-2) / x1.double().norm(dim=-2).clamp_min(1e-300)
+                rec.check(f"scaling_generic/{pk}-{dtname}", lab0, bool((d.mean() <= 2 * kw["tolerance"] * kap + 1e3 * em * kap)), f"x(-3b)/-3 differs from x(b) by {d.flatten().tolist()[:8]} (relative)")
             # a column whose norm is below the safe-division threshold: zero or the scaled answer, nothing else
             if dt == torch.float64:
                 bt = b.clone()
                 bt[..., 2] = bt[..., 2] * 1e-13
-                done, out = rec.guard(f"sub_eps_column/{pk}", lab0, lambda: linear_cg(A.matmul, bt, **kw))
+                done, out = rec.guard(f"sub_eps_column/{pk}-{dtname}", lab0, lambda: linear_cg(A.matmul, bt, **kw))
                 if done:
                     x = out
                     xt = torch.linalg.solve(A64, bt.double())[..., 2]
                     okc = bool((x[..., 2] == 0).all()) or bool(((x[..., 2].double() - xt).norm(dim=-1) <= 1e-2 * xt.norm(dim=-1)).all())
-                    rec.check(f"sub_eps_column/{pk}", lab0, okc, "column with ||b|| < eps is neither zero nor the scaled solution")
+                    rec.check(f"sub_eps_column/{pk}-{dtname}", lab0, okc, "column with ||b|| < eps is neither zero nor the scaled solution")
             # vector rhs (only without batch broadcasting ambiguity: rhs (n,) with batched A broadcasts)
             bv = b[..., 0] if not batch else b[(0,) * len(batch)][..., 0]
-            done, out = rec.guard(f"vector_rhs/{pk}", lab0, lambda: (linear_cg(A.matmul, bv, **kw), linear_cg(A.matmul, bv.unsqueeze(-1), **kw)))
+            done, out = rec.guard(f"vector_rhs/{pk}-{dtname}", lab0, lambda: (linear_cg(A.matmul, bv, **kw), linear_cg(A.matmul, bv.unsqueeze(-1), **kw)))
             if done:
                 xv, xm = out
                 exp_shape = (*batch, n) if False else xm.shape[:-1]
-                rec.check(f"vector_rhs/{pk}", lab0, xv.shape == exp_shape and torch.equal(xv, xm.squeeze(-1)), f"vector rhs: {tuple(xv.shape)} vs matrix rhs {tuple(xm.shape)}")
+                rec.check(f"vector_rhs/{pk}-{dtname}", lab0, xv.shape == exp_shape and torch.equal(xv, xm.squeeze(-1)), f"vector rhs: {tuple(xv.shape)} vs matrix rhs {tuple(xm.shape)}")
                 # vector rhs with a vector initial guess
                 x0v = torch.zeros_like(bv) + 0.5
-                done2, xv2 = rec.guard(f"vector_rhs_guess/{pk}", lab0, lambda: linear_cg(A.matmul, bv, initial_guess=x0v, **kw))
+                done2, xv2 = rec.guard(f"vector_rhs_guess/{pk}-{dtname}", lab0, lambda: linear_cg(A.matmul, bv, initial_guess=x0v, **kw))
                 if done2:
                     xsv = torch.linalg.solve(A64, bv.double().unsqueeze(-1)).squeeze(-1)
-                    rec.check(f"vector_rhs_guess/{pk}", lab0, xv2.shape == exp_shape and bool(((xv2.double() - xsv).norm(dim=-1) <= (kw["tolerance"] * kap * 2 + 1e-6) * xsv.norm(dim=-1)).all()),
+                    rec.check(f"vector_rhs_guess/{pk}-{dtname}", lab0, xv2.shape == exp_shape and bool(((xv2.double() - xsv).norm(dim=-1) <= (kw["tolerance"] * kap * 2 + 1e-6) * xsv.norm(dim=-1)).all()),
                               f"shape {tuple(xv2.shape)} err {(xv2.double() - xsv).norm().item():.3e}")
             # initial guesses: exact solution (iteration skipped), perturbed solution, random
             xs = torch.linalg.solve(A64, b.double())
             for gname, x0 in (("exact", xs.to(dt)), ("near", (xs * (1 + 1e-3)).to(dt)), ("random", K.zoo.rn(K.zoo.gen(seed), *b.shape, dtype=dt))):
                 lab = lab0 + f"|x0={gname}"
                 x0c = x0.clone()
-                done, out = rec.guard(f"initial_guess/{pk}", lab, lambda: K.run_warn(lambda: linear_cg(A.matmul, b, initial_guess=x0, **kw)))
+                done, out = rec.guard(f"initial_guess/{pk}-{dtname}", lab, lambda: K.run_warn(lambda: linear_cg(A.matmul, b, initial_guess=x0, **kw)))
                 if done:
                     x, w = out
                     rn = (b.double() - A64 @ x.double()).norm(dim=-2) / b.double().norm(dim=-2)
                     rn0 = (b.double() - A64 @ x0.double()).norm(dim=-2) / b.double().norm(dim=-2)
                     ok = x.shape == b.shape and (bool(w) or bool(rn.mean() <= kw["tolerance"] * 1.001 + 50 * em * kap * 10))
-                    rec.check(f"initial_guess/{pk}", lab, ok, f"mean rel.res {rn.mean().item():.3e} (initial {rn0.mean().item():.3e}) warned={bool(w)}")
+                    rec.check(f"initial_guess/{pk}-{dtname}", lab, ok, f"mean rel.res {rn.mean().item():.3e} (initial {rn0.mean().item():.3e}) warned={bool(w)}")
                     eA = K.anorm(A64, x.double() - xs)
                     e0 = K.anorm(A64, x0.double() - xs)
-                    rec.check(f"initial_guess_no_worse/{pk}", lab, bool((eA <= e0 * (1 + 1e-6) + 50 * em * kap * K.anorm(A64, xs)).all()), f"A-norm error grew from {e0.max().item():.3e} to {eA.max().item():.3e}")
-                    rec.check(f"initial_guess_untouched/{pk}", lab, torch.equal(x0, x0c), "initial_guess was mutated")
+                    rec.check(f"initial_guess_no_worse/{pk}-{dtname}", lab, bool((eA <= e0 * (1 + 1e-6) + 50 * em * kap * K.anorm(A64, xs)).all()), f"A-norm error grew from {e0.max().item():.3e} to {eA.max().item():.3e}")
+                    rec.check(f"initial_guess_untouched/{pk}-{dtname}", lab, torch.equal(x0, x0c), "initial_guess was mutated")
             # frozen columns: column 0 is an eigenvector (converges in one step, then must stop changing bit-for-bit
             # while the other columns keep iterating)
             if n >= 3:
@@ -510,7 +523,7 @@ def rtc_cg_limit(dtname, kinds, tier):
                 outs = []
                 good = True
                 for j in (2, 3, 5, min(9, n + 2)):
-                    done, x = rec.guard(f"frozen_column/{pk}", lab0 + f"|j={j}", lambda: linear_cg(A.matmul, bf, tolerance=1e-30, max_iter=j, max_tridiag_iter=0, preconditioner=pc, stop_updating_after=1e-5 if dt == torch.float64 else 1e-3))
+                    done, x = rec.guard(f"frozen_column/{pk}-{dtname}", lab0 + f"|j={j}", lambda: linear_cg(A.matmul, bf, tolerance=1e-30, max_iter=j, max_tridiag_iter=0, preconditioner=pc, stop_updating_after=1e-5 if dt == torch.float64 else 1e-3))
                     if not done:
                         good = False
                         break
@@ -519,23 +532,29 @@ def rtc_cg_limit(dtname, kinds, tier):
                     r0 = (bf.double() - A64 @ outs[0].double())[..., 0].norm(dim=-1) / bf.double()[..., 0].norm(dim=-1)
                     if bool((r0 < (1e-6 if dt == torch.float64 else 2e-4)).all()):  # converged after <= 2 steps as arranged
                         same = all(torch.equal(o[..., 0], outs[0][..., 0]) for o in outs[1:])
-                        rec.check(f"frozen_column/{pk}", lab0, same, "a converged column changed in later iterations")
-                        moved = n <= 4 or any(not torch.equal(o[..., 1], outs[0][..., 1]) for o in outs[1:])
-                        rec.check(f"unfrozen_columns_iterate/{pk}", lab0, moved, "non-converged columns did not change with a larger budget")
+                        rec.check(f"frozen_column/{pk}-{dtname}", lab0, same, "a converged column changed in later iterations")
+                        sua_ = 1e-5 if dt == torch.float64 else 1e-3
+                        r1 = (bf.double() - A64 @ outs[0].double())[..., 1].norm(dim=-1) / bf.double()[..., 1].norm(dim=-1)
+                        if bool((r1 > 10 * sua_).all()):
+                            moved = bool((outs[1][..., 1] != outs[0][..., 1]).flatten(-1).any(-1).all())
+                            rec.check(f"unfrozen_columns_iterate/{pk}-{dtname}", lab0, moved, "a non-converged column did not change with a larger budget")
                     else:
-                        rec.check(f"frozen_column/{pk}", lab0, True, nontrivial=False)
+                        rec.check(f"frozen_column/{pk}-{dtname}", lab0, True, nontrivial=False)
             # rhs untouched
             bc = b.clone()
             linear_cg(A.matmul, b, **kw)
-            rec.check(f"rhs_untouched/{pk}", lab0, torch.equal(b, bc), "rhs was mutated")
+            rec.check(f"rhs_untouched/{pk}-{dtname}", lab0, torch.equal(b, bc), "rhs was mutated")
             # rhs broadcast against a batched operator and the other way round
             if batch:
                 b1 = b[(0,) * len(batch)]
-                done, x = rec.guard(f"broadcast_rhs/{pk}", lab0, lambda: linear_cg(A.matmul, b1, **kw))
+                done, out = rec.guard(f"broadcast_rhs/{pk}-{dtname}", lab0, lambda: K.run_warn(lambda: linear_cg(A.matmul, b1, **kw)))
                 if done:
-                    xs1 = torch.linalg.solve(A64, b1.double().expand(*batch, n, 4))
-                    err = (x.double() - xs1).norm(dim=-2) / xs1.norm(dim=-2)
-                    rec.check(f"broadcast_rhs/{pk}", lab0, x.shape == xs1.shape and bool(err.mean() <= kw["tolerance"] * kap * 2 + 1e-6), f"shape {tuple(x.shape)} err {err.max().item():.3e}")
+                    x, w = out
+                    ok = tuple(x.shape) == (*batch, n, 4)
+                    if ok and not w:
+                        rn = (b1.double() - A64 @ x.double()).norm(dim=-2) / b1.double().norm(dim=-2)
+                        ok = bool(rn.mean() <= kw["tolerance"] * 1.001 + 500 * em * kap)
+                    rec.check(f"broadcast_rhs/{pk}-{dtname}", lab0, ok, f"shape {tuple(x.shape)} (expected {(*batch, n, 4)}) or residual above tolerance without warning")
     return rec.obligations()
 
 
@@ -573,105 +592,122 @@ def rtc_cg_tridiag(dtname, kinds, tier):
             pc = (lambda v, P=P: P @ v) if P is not None else None
             lab = _lab(dt=dtname, kind=kind, cond=f"{cond:g}", n=n, b=batch, cols=ncols, nt=nt, m=m, mi=mi, pre=pk, tbs=int(tbs))
             with settings.terminate_cg_by_size(tbs):
-                done, out = rec.guard(f"tridiag_run/{pk}", lab, lambda: K.run_warn(lambda: linear_cg(A.matmul, b, n_tridiag=nt, max_iter=mi, max_tridiag_iter=m, tolerance=1e-3, preconditioner=pc)))
+                done, out = rec.guard(f"tridiag_run/{pk}-{dtname}", lab, lambda: K.run_warn(lambda: linear_cg(A.matmul, b, n_tridiag=nt, max_iter=mi, max_tridiag_iter=m, tolerance=1e-3, preconditioner=pc)))
             if not done:
                 continue
             (x, T), w = out
             j = T.shape[-1]
             okshape = x.shape == b.shape and T.dim() == 3 + len(batch) and tuple(T.shape[:-2]) == (nt, *batch) and T.shape[-2] == j and 1 <= j <= min(m, n) and T.dtype == dt
-            rec.check(f"tridiag_shape/{pk}", lab, okshape, f"x {tuple(x.shape)} T {tuple(T.shape)} {T.dtype}; expected ({nt}, *{batch}, j, j) with j <= {min(m, n)}")
+            rec.check(f"tridiag_shape/{pk}-{dtname}", lab, okshape, f"x {tuple(x.shape)} T {tuple(T.shape)} {T.dtype}; expected ({nt}, *{batch}, j, j) with j <= {min(m, n)}")
             if not okshape:
                 continue
-            rec.check(f"tridiag_symmetric/{pk}", lab, torch.equal(T, T.mT), "T is not symmetric")
-            rec.check(f"tridiag_band/{pk}", lab, K.is_tridiag(T), "T has entries outside the three diagonals")
+            rec.check(f"tridiag_symmetric/{pk}-{dtname}", lab, torch.equal(T, T.mT), "T is not symmetric")
+            rec.check(f"tridiag_band/{pk}-{dtname}", lab, K.is_tridiag(T), "T has entries outside the three diagonals")
             # solution still a solution
             rn = (b.double() - A64 @ x.double()).norm(dim=-2) / b.double().norm(dim=-2)
             if not w:
-                rec.check(f"tridiag_solution/{pk}", lab, bool(rn.mean() <= 1e-3 * 1.001), f"no warning, mean rel.res {rn.mean().item():.3e}")
-            # member-wise comparison with the reference Lanczos process
+                rec.check(f"tridiag_solution/{pk}-{dtname}", lab, bool(rn.mean() <= 1e-3 * 1.001), f"no warning, mean rel.res {rn.mean().item():.3e}")
+            # member-wise comparison with the reference Lanczos process.  Column c of member bi is "valid" for its
+            # first j_ok steps: until the CG residual of that column reaches the statement's floor (safe divisions on
+            # r^T P r and p^T A p with the absolute threshold eps=1e-10) or the Krylov space is exhausted.
             S = K.psd_sqrt(P64) if P64 is not None else None
             idxs = list(itertools.product(*[range(s) for s in batch])) if batch else [()]
-            ok_ref = ok_ritz = ok_mom = ok_full = ok_size = True
-            d_ref = d_ritz = d_mom = d_full = d_size = ""
-            ok_ritz_st = True
-            d_ritz_st = ""
+            fails = {"is_lanczos": "", "moments": "", "ritz_in_spectrum": "", "quadrature": "", "size": ""}
+            L = min(m, n)
+            best_ok = 0
             for bi in idxs:
                 Ab = A64[bi]
                 Sb = S[bi] if S is not None else None
                 Op = Ab if Sb is None else Sb @ Ab @ Sb
                 Op = 0.5 * (Op + Op.mT)
-                evo = torch.linalg.eigvalsh(Op)
+                evo, Uo = torch.linalg.eigh(Op)
                 nrm = float(evo[-1])
+                lminA = float(torch.linalg.eigvalsh(Ab)[0])
+                lminP = float(torch.linalg.eigvalsh(P64[bi])[0]) if P64 is not None else 1.0
                 for c in range(nt):
-                    z = b[bi][..., c].double()
-                    z = z if Sb is None else Sb @ z
+                    bcol = b[bi][..., c].double()
+                    z = bcol if Sb is None else Sb @ bcol
+                    q10 = float(z @ z) / float(bcol @ bcol)  # r0^T P r0 of the normalised system
                     z = z / z.norm()
                     Tc = T[(c, *bi)].double()
-                    Qr, Tr, broke = K.ref_lanczos(Op, z, j)
+                    Qr, Tr, broke = K.ref_lanczos(Op, z, min(L + 1, n))
                     jr = Tr.shape[-1]
-                    # Krylov space not exhausted and CG not stagnated before j steps: sizes and entries must agree
-                    healthy = (not broke) and jr == j and (j == 1 or float(torch.diagonal(Tr, 1).min()) > 1e-3 * nrm)
-                    if healthy:
-                        dmax = float((Tc - Tr).abs().max()) / nrm
-                        if dmax > tolT * (1 + kap / 10) and ok_ref:
-                            ok_ref = False
-                            d_ref = f"member {bi} col {c}: |T - T_lanczos|/|A| = {dmax:.3e}"
-                        if j < min(m, n):
-                            # could have been larger: the reference goes on without breakdown?
-                            _, Tr2, broke2 = K.ref_lanczos(Op, z, min(m, n))
-                            if not broke2 and Tr2.shape[-1] == min(m, n) and float(torch.diagonal(Tr2, 1).min()) > 1e-2 * nrm and ok_size:
-                                # only a violation if NO column/member justified stopping; recorded per run below
-                                pass
-                        # moments e1^T T^k e1 = z^T Op^k z for k <= 2j-1
-                        tk = torch.zeros(j, dtype=torch.float64)
-                        tk[0] = 1
-                        zk = z.clone()
-                        for k in range(1, min(2 * j - 1, 3) + 1):
-                            tk = Tc @ tk
-                            zk = Op @ zk
-                            lhs, rhs_ = float(tk[0]), float(z @ zk)
-                            if abs(lhs - rhs_) > tolT * (1 + kap / 10) * nrm ** k * 10 and ok_mom:
-                                ok_mom = False
-                                d_mom = f"member {bi} col {c}: e1^T T^{k} e1 = {lhs:.12g} vs z^T A^{k} z = {rhs_:.12g}"
-                        rv = torch.linalg.eigvalsh(Tc)
-                        if (float(rv[0]) < float(evo[0]) - tolT * 10 * nrm or float(rv[-1]) > float(evo[-1]) + tolT * 10 * nrm) and ok_ritz:
-                            ok_ritz = False
-                            d_ritz = f"member {bi} col {c}: Ritz values [{float(rv[0]):.6g}, {float(rv[-1]):.6g}] outside spectrum [{float(evo[0]):.6g}, {float(evo[-1]):.6g}]"
-                        if j == n:
-                            for fname, f in (("log", torch.log), ("inv", torch.reciprocal), ("sqrt", torch.sqrt)):
-                                lhs = float((torch.linalg.eigh(Tc)[1][0] ** 2 * f(rv.clamp_min(1e-300))).sum())
-                                evs_, U_ = torch.linalg.eigh(Op)
-                                rhs_ = float((((U_.mT @ z) ** 2) * f(evs_)).sum())
-                                if abs(lhs - rhs_) > max(tolT * 1e3, 1e-5) * (1 + kap / 10) * max(1.0, abs(rhs_)) and ok_full:
-                                    ok_full = False
-                                    d_full = f"member {bi} col {c}: e1^T {fname}(T) e1 = {lhs:.10g} vs z^T {fname}(A) z = {rhs_:.10g}"
-                    else:
-                        # breakdown / stagnation inside the window: the quadrature rule must still be the Gauss
-                        # rule of the exhausted Krylov space (exact), and Ritz values must stay inside the spectrum
-                        rv, W = torch.linalg.eigh(Tc)
-                        evs_, U_ = torch.linalg.eigh(Op)
-                        for fname, f in (("log", torch.log), ("inv", torch.reciprocal)):
+                    # valid prefix: (i) above the floor (conservative estimate of the safe-division quantities from the
+                    # reference process), (ii) before a Ritz value converges (beta_{k+1}|s_ki| small: from there on finite
+                    # precision CG/Lanczos without re-orthogonalisation legitimately departs from the exact process)
+                    j_ok = j_fl = 1
+                    orth_ok = True
+                    surely_floor = False
+                    thr_orth = 1e-4 if dt == torch.float64 else 3e-2
+                    for k in range(1, min(jr, L + 1)):
+                        # CG residual after k steps (relative to the start): beta_{k+1} |e_k^T T_k^{-1} e_1|
+                        y = torch.linalg.solve(Tr[:k, :k], torch.eye(k, 1, dtype=torch.float64)).squeeze(-1)
+                        bk = float(Tr[k, k - 1])
+                        rho = bk * abs(float(y[-1]))
+                        if rho * rho * q10 < 1e-12:
+                            surely_floor = True
+                        if rho * rho * q10 * min(1.0, lminA * lminP) < 1e4 * 1e-10 or bk < 1e-4 * nrm:
+                            break
+                        j_fl = k + 1
+                        if orth_ok and bk * float(torch.linalg.eigh(Tr[:k, :k])[1][-1].abs().min()) < thr_orth * nrm:
+                            orth_ok = False
+                        if orth_ok:
+                            j_ok = k + 1
+                    exhausted = broke and jr <= j_fl + 1
+                    j_fl = min(j_fl, L)
+                    j_ok = min(j_ok, L)
+                    best_ok = max(best_ok, j_fl)
+                    jc = min(j_ok, j)
+                    tl = tolT * (1 + kap / 10)
+                    # (a) entries
+                    dmax = float((Tc[:jc, :jc] - Tr[:jc, :jc]).abs().max()) / nrm
+                    if dmax > tl and not fails["is_lanczos"]:
+                        fails["is_lanczos"] = f"member {bi} col {c}: |T - T_lanczos|/|A| = {dmax:.3e} on the leading {jc}x{jc} block (T {j}x{j}): T {Tc[:jc, :jc].diagonal().tolist()[:4]} vs {Tr[:jc, :jc].diagonal().tolist()[:4]}"
+                    # (b) moments e1^T T^k e1 = z^T Op^k z for k <= 2 jc - 1
+                    tk = torch.zeros(jc, dtype=torch.float64)
+                    tk[0] = 1
+                    zk = z.clone()
+                    for k in range(1, min(2 * jc - 1, 3) + 1):
+                        tk = Tc[:jc, :jc] @ tk
+                        zk = Op @ zk
+                        lhs, rhs_ = float(tk[0]), float(z @ zk)
+                        if abs(lhs - rhs_) > 10 * tl * nrm ** k and not fails["moments"]:
+                            fails["moments"] = f"member {bi} col {c}: e1^T T^{k} e1 = {lhs:.12g} vs z^T A^{k} z = {rhs_:.12g}"
+                    # (c) Ritz values inside the spectrum while CG is above its floor (afterwards the rows written for a
+                    # stalled column are not Lanczos coefficients any more; only the quadrature accuracy (d) is claimed)
+                    rv, W = torch.linalg.eigh(Tc)
+                    wgt = W[0] ** 2
+                    if j_fl >= j:
+                        outside = (rv < float(evo[0]) - 10 * tl * nrm) | (rv > float(evo[-1]) + 10 * tl * nrm)
+                        if bool(outside.any()) and not fails["ritz_in_spectrum"]:
+                            fails["ritz_in_spectrum"] = f"member {bi} col {c}: Ritz values {rv[outside].tolist()[:3]} (weights {wgt[outside].tolist()[:3]}) outside the spectrum [{float(evo[0]):.6g}, {float(evo[-1]):.6g}] (T {j}x{j})"
+                    # (d) Gauss quadrature: exact at full dimension / once the Krylov space is exhausted; to the floor's
+                    # accuracy when CG certainly ran into its floor inside the window
+                    full = (j_ok >= j and j == n) or (exhausted and j >= j_fl and j_ok >= j_fl)
+                    floor_hit = surely_floor and j_fl < j and not full
+                    if full or floor_hit:
+                        cz = (Uo.mT @ z) ** 2
+                        for fname, f in (("log", torch.log), ("inv", torch.reciprocal), ("sqrt", torch.sqrt)):
                             if float(rv[0]) <= 0:
-                                ok_full, d_full = False, f"member {bi} col {c}: T not positive definite ({float(rv[0]):.3e}) after breakdown"
+                                if not fails["quadrature"]:
+                                    fails["quadrature"] = f"member {bi} col {c}: T has the non-positive eigenvalue {float(rv[0]):.3e}"
                                 break
-                            lhs = float((W[0] ** 2 * f(rv)).sum())
-                            rhs_ = float((((U_.mT @ z) ** 2) * f(evs_)).sum())
-                            if abs(lhs - rhs_) > (1e-4 if dt == torch.float64 else 1e-2) * max(1.0, abs(rhs_)) and ok_full:
-                                ok_full = False
-                                d_full = f"(breakdown) member {bi} col {c}: e1^T {fname}(T) e1 = {lhs:.10g} vs z^T {fname}(A) z = {rhs_:.10g}"
-                        wgt = W[0] ** 2
-                        outside = (rv < float(evo[0]) * (1 - 1e-3)) | (rv > float(evo[-1]) * (1 + 1e-3))
-                        if bool((outside & (wgt > 1e-6)).any()) and ok_ritz:
-                            ok_ritz = False
-                            d_ritz = f"(breakdown) member {bi} col {c}: weighted Ritz value outside the spectrum: {rv[outside].tolist()[:3]} vs [{float(evo[0]):.6g}, {float(evo[-1]):.6g}]"
-                        if bool(outside.any()) and ok_ritz_st:
-                            ok_ritz_st = False
-                            d_ritz_st = f"member {bi} col {c}: zero-weight Ritz value {rv[outside].tolist()[:3]} outside [{float(evo[0]):.6g}, {float(evo[-1]):.6g}] after breakdown/stagnation"
-            rec.check(f"tridiag_is_lanczos/{pk}", lab, ok_ref, d_ref)
-            rec.check(f"tridiag_moments/{pk}", lab, ok_mom, d_mom)
-            rec.check(f"tridiag_ritz_in_spectrum/{pk}", lab, ok_ritz, d_ritz)
-            rec.check(f"tridiag_quadrature/{pk}", lab, ok_full, d_full)
-            rec.check(f"tridiag_ritz_after_breakdown/{pk}", lab, ok_ritz_st, d_ritz_st)
+                            lhs = float((wgt * f(rv)).sum())
+                            rhs_ = float((cz * f(evo)).sum())
+                            tq = (max(1e3 * tolT, 1e-5) if full else (1e-4 if dt == torch.float64 else 1e-2)) * (1 + kap / 10)
+                            if abs(lhs - rhs_) > tq * max(1.0, abs(rhs_)) and not fails["quadrature"]:
+                                fails["quadrature"] = f"member {bi} col {c}: e1^T {fname}(T) e1 = {lhs:.10g} vs z^T {fname}(A) z = {rhs_:.10g} ({'full dimension' if full else 'floor reached'}; valid steps {j_ok}/{j_fl}, T {j}x{j})"
+            # (e) size: the tridiagonal covers the steps CG was obliged to run (the stopping rule may cut the last one)
+            need = min(L, best_ok, mi - 1)
+            if j < need:
+                fails["size"] = f"T is {j}x{j} although max_tridiag_iter={m}, n={n}, max_iter={mi} and a column stayed above the floor for {best_ok} steps"
+            if mi == 1:
+                # (own group: with max_iter = 1 the tolerance test may cut the only tridiagonal update)
+                d = "; ".join(v for v in fails.values() if v)
+                rec.check(f"tridiag_single_iteration/{pk}-{dtname}", lab, not d, d)
+            else:
+                for name, d in fails.items():
+                    rec.check(f"tridiag_{name}/{pk}-{dtname}", lab, not d, d)
     return rec.obligations()
 
 
